@@ -10,7 +10,7 @@ func init() {
 			{Name: "invalid-operations", Pkg: ".", Files: files, Entry: "VerifInvalidOperations", Mode: "seq", Native: true,
 				Reach: []string{"invalid next to valid", "invalid alone"}, Functions: fns},
 			{Name: "service-errors", Pkg: ".", Files: files, Entry: "VerifServiceErrors", Mode: "seq", Native: true,
-				Reach: []string{"child step failed", "root step failed", "chunked downstream calls"}, Functions: fns},
+				Reach: []string{"child step failed", "root step failed", "chunked downstream calls", "same message twice"}, Functions: fns},
 		},
 		Assume: []string{
 			"gqlparser's validator decides validity natively; the 14 invalid operations are mutations of valid ones (unknown field/type/argument, wrong variable type, fragment cycle, ambiguous / unknown operation, syntax error, missing selection / argument, unused fragment / variable, subscription without root)",
